@@ -200,6 +200,14 @@ class Family:
     quick_n = 1000
     thorough_n = 20000
     parallel = True
+    shard = (0, 1)   # (index, count) of the process this instance generates cases for
+
+    def share(self, items):
+        """this shard's part of a deterministic enumeration (every count-th element)"""
+        i, k = self.shard
+        for idx, x in enumerate(items):
+            if idx % k == i:
+                yield x
 
     def setup(self) -> None:
         pass
@@ -303,12 +311,14 @@ def run_family(fam: Family, cases: list[Any], use_model: bool = True) -> FamResu
 
 
 def _shard(args):
-    modname, famname, seed, n, use_model, corpus = args
+    modname, famname, seed, n, use_model, corpus = args[:6]
     setup_import_path()
     import importlib
 
     mod = importlib.import_module(modname)
     fam = next(f for f in mod.FAMILIES if f.name == famname)
+    # deterministic enumerations inside gen() take every k-th element: see Family.share
+    fam.shard = args[6] if len(args) > 6 else (0, 1)
     rng = random.Random(f"{famname}:{seed}")
     cases = list(corpus) + list(fam.gen(rng, n))
     return run_family(fam, cases, use_model)
@@ -320,7 +330,7 @@ def run_family_sharded(modname: str, fam: Family, seed: int, n: int, shards: int
     if shards <= 1 or not fam.parallel:
         return _shard((modname, fam.name, seed, n, use_model, corpus))
     per = max(1, n // shards)
-    jobs = [(modname, fam.name, seed * 1000 + i, per, use_model, corpus if i == 0 else []) for i in range(shards)]
+    jobs = [(modname, fam.name, seed * 1000 + i, per, use_model, corpus if i == 0 else [], (i, shards)) for i in range(shards)]
     ctx = mp.get_context("fork")
     with ctx.Pool(min(shards, 16)) as pool:
         parts = pool.map(_shard, jobs)
